@@ -319,6 +319,28 @@ pub fn semi_count(b: &Board) -> usize {
     v.len()
 }
 
+/// Every (kind, man, source, destination) handed to the checked constructor `Move::new`: the tables behind
+/// well-formedness (alignment predicates, leaper sets) are indexed by EVERY pair of squares here.
+pub fn wf_sweep_event() -> Value {
+    use owlchess::moves::Move;
+    let mut accepted = Vec::new();
+    let mut panics = 0usize;
+    for k in 1..KINDS.len() {
+        for c in 1..13usize {
+            for s in 0..64usize {
+                for d in 0..64usize {
+                    match catch(|| Move::new(KINDS[k], Cell::from_index(c), Coord::from_index(s), Coord::from_index(d)).is_ok()) {
+                        Ok(true) => accepted.push(json!([k, c, s, d])),
+                        Ok(false) => {}
+                        Err(()) => panics += 1,
+                    }
+                }
+            }
+        }
+    }
+    json!({"ev": "wf_sweep", "accepted": accepted, "panics": panics, "tried": 9 * 12 * 64 * 64})
+}
+
 pub fn cap_event(b: &Board) -> Value {
     let n = semi_count(b);
     let mut ev = json!({"ev": "cap", "pos": raw_json(b.raw()), "semi_len": n});
@@ -326,6 +348,15 @@ pub fn cap_event(b: &Board) -> Value {
         let l = semilegal::gen_all(b);
         let lg = legal::gen_all(b);
         let c = semilegal::gen_capture(b).len() + semilegal::gen_simple(b).len();
+        // fixed-capacity text buffers: every legal move printed in all three notations
+        for m in lg.iter() {
+            for st in [owlchess::moves::Style::Uci, owlchess::moves::Style::San, owlchess::moves::Style::SanUtf8] {
+                if let Ok(t) = m.styled(b, st) {
+                    let _ = t.to_string();
+                }
+            }
+        }
+        let _ = (b.as_fen(), b.pretty(owlchess::board::PrettyStyle::Utf8).to_string());
         (l.len(), l.capacity(), lg.len(), c, b.has_legal_moves())
     }) {
         Ok((l, cap, lg, c, _)) => {
@@ -590,8 +621,8 @@ pub fn geometry_event() -> Value {
     let mut shifts = Vec::new();
     for c in Coord::iter() {
         let mut row = Vec::new();
-        for df in -8i32..=8 {
-            for dr in -8i32..=8 {
+        for df in -20i32..=20 {
+            for dr in -20i32..=20 {
                 row.push(c.shift(df as isize, dr as isize).map(|x| x.index() as i32).unwrap_or(-1));
             }
         }
@@ -603,8 +634,14 @@ pub fn geometry_event() -> Value {
         adds.push(json!(ok));
     }
     // extreme deltas: anything that leaves the board must give None, however large
-    let big: [isize; 12] = [isize::MIN, isize::MIN / 2, isize::MIN / 4, isize::MIN / 8, isize::MAX, isize::MAX / 2, isize::MAX / 4,
+    let mut big: Vec<isize> = vec![isize::MIN, isize::MIN / 2, isize::MIN / 4, isize::MIN / 8, isize::MAX, isize::MAX / 2, isize::MAX / 4,
                             isize::MAX / 8 + 1, 1 << 61, -(1 << 61), (1 << 61) + 1, 1 << 32];
+    // ... and the nearer ones: everything from 8 files/ranks on leaves the board too (nibble / byte / word carries)
+    for m in [8isize, 9, 15, 16, 17, 23, 24, 31, 32, 33, 63, 64, 65, 100, 127, 128, 129, 255, 256, 257, 1000, 32767, 32768, 65535, 65536,
+              (1 << 31) - 1, 1 << 31, (1 << 31) + 1] {
+        big.push(m);
+        big.push(-m);
+    }
     let mut extreme = 0usize;
     let mut extreme_some = Vec::new();
     for c in Coord::iter() {
@@ -619,7 +656,7 @@ pub fn geometry_event() -> Value {
             }
         }
     }
-    json!({"ev": "t_geometry", "shifts": shifts, "adds": adds, "extreme_tried": extreme, "extreme_on_board": extreme_some})
+    json!({"ev": "t_geometry", "shift_range": 20, "shifts": shifts, "adds": adds, "extreme_tried": extreme, "extreme_on_board": extreme_some})
 }
 
 /// The bitboard iterator as a Rust iterator: every adaptor must behave like the same call on the ascending
